@@ -19,3 +19,13 @@ Definition case (ctx : N) (a b : text) :=
   let m0 := impl_make_diff 0 a b in
   (map enc_dres (diff_lines a b), map enc_mm ms, map enc_ch (modified_lines m0),
    map enc_j (json_blocks m0), map enc_cs (checkstyle_errors m0)).
+
+(* ModifiedLines Display / FromStr: a chunk is (line_number_orig, lines_removed, lines) *)
+Definition dec_mc (c : N * N * list text) : mchunk := let '(o, r, ls) := c in MkMC o r ls.
+Definition enc_mc (c : mchunk) : N * N * list text := (mc_orig c, mc_removed c, mc_lines c).
+Definition run_print_modified (cs : list (N * N * list text)) : text := print_modified (map dec_mc cs).
+Definition run_parse_modified (t : text) : option (list (N * N * list text)) :=
+  option_map (map enc_mc) (parse_modified t).
+(* one correspondence case: Display of [cs], FromStr of that, FromStr of [t] *)
+Definition pp_case (cs : list (N * N * list text)) (t : text) :=
+  (run_print_modified cs, run_parse_modified (run_print_modified cs), run_parse_modified t).
